@@ -323,24 +323,6 @@ func (c *Ctx) checkTooLongEdge(fn *ssa.Function, gi *guardInfo, input *ssa.Param
 	}
 }
 
-// RuleSentinelOnlyInGuard: the sentinel is referenced only in the too-long block(s).
-func (c *Ctx) RuleSentinelUses(sentinel *ssa.Global, allowed map[*ssa.Function]bool) {
-	for _, fn := range SortedFuncs(c.AllRepoFuncs()) {
-		if fn.Name() == "init" {
-			continue
-		}
-		for _, b := range fn.Blocks {
-			for _, in := range b.Instrs {
-				if u, ok := in.(*ssa.UnOp); ok && u.X == sentinel {
-					if !allowed[fn] {
-						c.add("violated", "C18.L", fn, in.Pos(), sentinel.Name()+" produced outside a length guard")
-					}
-				}
-			}
-		}
-	}
-}
-
 // ---------- C18.T1 ----------
 
 func (c *Ctx) RuleNoPanicSites(fns map[*ssa.Function]bool, exceptions map[string]string) {
@@ -584,12 +566,6 @@ func hasSliceOnPath(v ssa.Value) bool {
 		}
 	}
 	return false
-}
-
-// mayBeNil: error value coming from a callee (could be nil) — e.g. `return unmarshalText(...)`.
-func (c *Ctx) mayBeNil(v ssa.Value) bool {
-	_, ok := v.(*ssa.Extract)
-	return ok
 }
 
 // ---------- C12.count ----------
